@@ -210,6 +210,8 @@ def run_elem(R, J, name, tokens, full, reduced):
     # element class: name, type, id, number) plus one nonsense name
     probes = [n for n in ('name', 'type', 'id', 'number', 'font-family', 'placement', 'foo-bar', 'value')
               if n not in declared][:6 if is_full else 3]
+    if is_full:     # malformed shortcut names: unknown dot names must be refused with the documented AttributeError
+        probes += ['xml-', 'xml--', 'xml-no-such-child', 'xml--time', 'xml-time-']
     for an in probes:
         py = an.replace('-', '_')
         for tok in (dict(kind='str', s=cps('x'), m=0, e=0), dict(kind='int', s=cps('1'), m=0, e=0)):
